@@ -64,6 +64,7 @@ type Cfg struct {
 	Inflation      bool
 	InitialDEs     int
 	ReqPerBlockPct int
+	MaxGroupSize   uint64
 	PoorRequester  int64 // if > 0 the last requester keeps only this many uband
 }
 
@@ -205,6 +206,9 @@ func NewHist(run *sim.Run, label string, caseID int, cfg Cfg, mons func(h *Hist)
 			tg.Params.SigningPeriod = cfg.SigningPeriod
 			tg.Params.MaxSigningAttempt = cfg.MaxAttempts
 			tg.Params.MaxDESize = cfg.MaxDESize
+			if cfg.MaxGroupSize > 0 {
+				tg.Params.MaxGroupSize = cfg.MaxGroupSize
+			}
 			tp = tg.Params
 			gs[tsstypes.ModuleName] = cdc.MustMarshalJSON(&tg)
 		}})
@@ -420,7 +424,22 @@ func minU(a, b uint64) uint64 {
 // corrupt turns an honest share into a wrong one; returns the tag naming the corruption.
 func (h *Hist) corrupt(msg *tsstypes.MsgSubmitSignature, m *Member, signing tsstypes.Signing, sa tsstypes.SigningAttempt) string {
 	sig := append([]byte{}, msg.Signature...)
-	switch h.Rng.Intn(5) {
+	switch h.Rng.Intn(6) {
+	case 5: // a correct Schnorr share for the member's key, but made with a nonce other than the assigned one
+		key := m.Keys[signing.GroupID]
+		var mids []tss.MemberID
+		for _, am := range sa.AssignedMembers {
+			mids = append(mids, am.MemberID)
+		}
+		if lag, err := tss.ComputeLagrangeCoefficient(key.MemberID, mids); err == nil {
+			if alt, err := tss.SignSigning(signing.GroupPubNonce, signing.GroupPubKey, signing.Message, lag, scalarFrom(h.Rng), key.PrivKey); err == nil {
+				msg.Signature = alt
+				return "sig:corrupt-nonce"
+			}
+		}
+		sig[45] ^= 0x04
+		msg.Signature = sig
+		return "sig:corrupt-z"
 	case 0: // scalar + 1
 		for i := len(sig) - 1; i >= 33; i-- {
 			sig[i]++
